@@ -25,6 +25,6 @@ The property under test:
 Task:
 1. Make ONE realistic change to the library source under {wt}/src/_gettsim (Python or YAML parameter files; NOT the tests) that BREAKS this property: a plausible slip a developer could make (refactoring mistake, off-by-one, wrong comparison, misplaced optimisation or cache, wrong default, a parameter entry typo, two sites that each look fine alone, ...). It must still import, and the existing test suite must give exactly the same result as before (the same 11 failures and nothing else failing) - run the full suite to confirm.
 2. The breakage must need something specific to manifest - a particular row order, household structure, policy date, unusual-but-valid input value, multi-step sequence of API calls, or similar - not something that every ordinary call would expose. {hint}
-3. Write a demonstration script {wt}/demo.py that uses the public API (gettsim.set_up_policy_environment, gettsim.compute_taxes_and_transfers, or documented module-level functions) and exits with status 0 on the unchanged tree and status 1 (printing what went wrong) on the changed tree. Check both: `git -C {wt} stash` (demo must exit 0), `git -C {wt} stash pop` (demo must exit 1). Keep demo.py untracked (do not `git add` it) so that it is not part of the diff.
+3. Write a demonstration script {wt}/demo.py that uses the public API (gettsim.set_up_policy_environment, gettsim.compute_taxes_and_transfers, or documented module-level functions) and exits with status 0 on the unchanged tree and status 1 (printing what went wrong) on the changed tree. Check both WITHOUT using `git stash` (the stash is shared between all worktrees of this repository and other people use it concurrently): first `git -C {wt} diff > {wt}/patch.diff`, then `git -C {wt} apply -R {wt}/patch.diff` (unchanged tree: demo must exit 0), then `git -C {wt} apply {wt}/patch.diff` (changed tree: demo must exit 1). Keep demo.py untracked (do not `git add` it) so that it is not part of the diff.
 4. Write the change as a unified diff: `git -C {wt} diff > {wt}/patch.diff` (source change only). Do NOT commit.
 5. Reply with: the file/function changed, a one-paragraph description of the bug, why the existing tests do not notice it, and exactly what is needed for it to manifest (this goes into a meta.json later). Be concise.""")
